@@ -20,7 +20,7 @@ RULE = (
     'repr(k*step) and as the exact decimal product (e.g. -37.9); off-grid '
     'references (k+f)*step with f in {0.1 .. 0.9} and, at the level farthest '
     'from 0 mm, f = 0.01 and -0.002; no reference; one reference run per curve '
-    'interrupted (KeyboardInterrupt at a late statement) and then repeated. Both `rise '
+    'interrupted (KeyboardInterrupt at a late statement) and then repeated; then the command again on the same file with another reference and with none (accepted => origin at the new reference, refused => file unchanged). Both `rise '
     '-r` and `recession -r`, each on a fresh copy of the classified file. '
     'Oracle: on-grid => the command succeeds, the master curve computed by '
     'the harness from the interval tables (keyed by zeta_number) is 0 at '
@@ -176,6 +176,38 @@ def check(case):
                         which),
                     'step {} reference {}'.format(grid, text))
             counts['interrupted'] = counts.get('interrupted', 0) + 1
+            # the command repeated on the same file with another reference,
+            # and with none (refused today: the curve is already stored).
+            # A run that reports success has assembled the curve with the
+            # reference it was given; a refused one leaves the curve alone.
+            others = [q for q in (sweep[0], sweep[-1]) if q != k][:1]
+            for k2 in others + [None]:
+                before = _dump(wf.db)
+                try:
+                    if k2 is None:
+                        run()
+                    else:
+                        run(repr(k2 * h))
+                except Exception:  # pylint: disable=broad-except
+                    if _dump(wf.db) != before:
+                        raise Violation(
+                            '{}-refused-repeat-changed-file'.format(which),
+                            'step {} second reference {}'.format(grid, k2))
+                    labels.add('repeat-refused')
+                    continue
+                labels.add('repeat-accepted')
+                connection = wf.connect()
+                again = master(connection, which)
+                connection.close()
+                origin = max(plain) if k2 is None else k2
+                if set(again) != set(plain) or abs(
+                        again.get(origin, 1e30)) > 1e-9 * scale:
+                    raise Violation(
+                        '{}-reference-level-not-origin:repeated-command'
+                        .format(which),
+                        'step {}: assembled with reference level {}, then '
+                        'with {}: the curve is {!r} at the latter'.format(
+                            grid, k, origin, again.get(origin)))
             # off-grid references
             shutil.copyfile(base, wf.db)
             before = _dump(wf.db)
